@@ -21,7 +21,7 @@ import (
 )
 
 // getValues runs the obligation's query and returns the model values of the given Int terms.
-func getValues(u *Unit, o *Oblig, terms []*Term, cfg *SolverCfg) ([]int64, bool) {
+func getValues(u *Unit, o *Oblig, terms []*Term, extra []*Term) ([]int64, bool) {
 	if len(terms) == 0 {
 		return nil, true
 	}
@@ -34,9 +34,20 @@ func getValues(u *Unit, o *Oblig, terms []*Term, cfg *SolverCfg) ([]int64, bool)
 		if guardContradicts(a, pcs) {
 			continue
 		}
+		// quantified assumptions are left out: the candidate may violate a quantified invariant
+		// (it is only trusted if the real code misbehaves on it), but the solver can answer sat
+		if hasQuant(a) {
+			continue
+		}
 		s.Assert(a)
 	}
+	if hasQuant(o.Goal) || hasQuant(o.PC) {
+		return nil, false
+	}
 	s.Assert(mkNot(mkImp(o.PC, o.Goal)))
+	for _, e := range extra {
+		s.Assert(e)
+	}
 	var q strings.Builder
 	for _, t := range terms {
 		s.prepare(t)
@@ -176,8 +187,27 @@ var modelDrivers = map[string]modelDriver{
 }
 
 // modelReplayTest builds the replay test for a failed obligation of one of the driver functions.
+var quantMemo = map[*Term]bool{}
+
+func hasQuant(t *Term) bool {
+	if v, ok := quantMemo[t]; ok {
+		return v
+	}
+	r := t.Op == OpForall || t.Op == OpExists
+	if !r {
+		for _, a := range t.Args {
+			if hasQuant(a) {
+				r = true
+				break
+			}
+		}
+	}
+	quantMemo[t] = r
+	return r
+}
+
 func modelReplayTest(env *Env, u *Unit, o *Oblig) (string, bool) {
-	if u == nil || o.Result != "sat" {
+	if u == nil || o.Result == "unsat" {
 		return "", false
 	}
 	key := strings.SplitN(o.Fn, "[", 2)[0]
@@ -203,17 +233,51 @@ func modelReplayTest(env *Env, u *Unit, o *Oblig) (string, bool) {
 		return "", false
 	}
 	data := mkVar("p."+bp.Name(), sortSlice)
+	bt := types.Universe.Lookup("byte").Type()
+	hn, so := env.te.elemHeap(bt)
+	h0 := mkVar(hn+"@0", so)
+	// Inside a loop the failing instruction works on the loop-head version of the slice (a
+	// suffix of the datagram) and of the byte heap: a datagram consisting of just that suffix
+	// drives the first iteration into the same state. Take the (heap, slice) pair the path
+	// condition and the goal actually read bytes through.
+	type pair struct{ h, d *Term }
+	count := map[pair]int{}
+	seen := map[*Term]bool{}
+	var walk func(t *Term)
+	walk = func(t *Term) {
+		if seen[t] {
+			return
+		}
+		seen[t] = true
+		if t.Op == OpSelect && t.Args[0].Op == OpSelect && t.Args[0].Args[0].Op == OpVar && t.Args[0].Args[0].Sort == so {
+			r := t.Args[0].Args[1]
+			if r.Op == OpSel && len(r.Args) == 1 && r.Args[0].Op == OpVar && r.Args[0].Sort == sortSlice && strings.Contains(r.Args[0].Name, bp.Name()) {
+				count[pair{t.Args[0].Args[0], r.Args[0]}]++
+			}
+		}
+		for _, a := range t.Args {
+			walk(a)
+		}
+	}
+	walk(o.PC)
+	walk(o.Goal)
+	best := 0
+	for p, c := range count {
+		if c > best || (c == best && p.d.Name > data.Name) {
+			best, data, h0 = c, p.d, p.h
+		}
+	}
 	hdr, ok := getValues(u, o, []*Term{sliceRef(data), sliceOff(data), sliceLen(data)}, nil)
 	if !ok || hdr[2] < 0 || hdr[2] > 65536 {
 		return "", false
 	}
-	bt := types.Universe.Lookup("byte").Type()
-	hn, so := env.te.elemHeap(bt)
-	h0 := mkVar(hn+"@0", so)
 	n := int(hdr[2])
 	var terms []*Term
+	var ranges []*Term // typing facts of the queried values (the quantified ones were dropped)
 	for k := 0; k < n; k++ {
-		terms = append(terms, mkSelect(mkSelect(h0, mkInt(hdr[0])), mkInt(hdr[1]+int64(k))))
+		b := mkSelect(mkSelect(h0, mkInt(hdr[0])), mkInt(hdr[1]+int64(k)))
+		terms = append(terms, b)
+		ranges = append(ranges, mkLe(mkInt(0), b), mkLe(b, mkInt(255)))
 	}
 	// scalar fields of the receiver
 	type fld struct {
@@ -234,8 +298,14 @@ func modelReplayTest(env *Env, u *Unit, o *Oblig) (string, bool) {
 				if fso.Elem != sortInt && fso.Elem != sortBool {
 					continue
 				}
-				terms = append(terms, mkSelect(mkVar(fnm+"@0", fso), r))
-				flds = append(flds, fld{f.Name(), f.Type().String()})
+				ft := mkSelect(mkVar(fnm+"@0", fso), r)
+				terms = append(terms, ft)
+				if fso.Elem == sortInt {
+					if tf := env.te.typeFacts(f.Type(), ft, mkInt(0), 0); tf != nil && !hasQuant(tf) {
+						ranges = append(ranges, tf)
+					}
+				}
+				flds = append(flds, fld{f.Name(), types.TypeString(f.Type(), func(*types.Package) string { return "" })})
 			}
 		}
 	}
@@ -243,7 +313,7 @@ func modelReplayTest(env *Env, u *Unit, o *Oblig) (string, bool) {
 	pin := mkAnd(mkEq(sliceRef(data), mkInt(hdr[0])), mkEq(sliceOff(data), mkInt(hdr[1])), mkEq(sliceLen(data), mkInt(hdr[2])))
 	o2 := *o
 	o2.PC = mkAnd(o.PC, pin)
-	vals, ok := getValues(u, &o2, terms, nil)
+	vals, ok := getValues(u, &o2, terms, ranges)
 	if !ok {
 		return "", false
 	}
